@@ -19,12 +19,15 @@ import (
 // Explicit-state search.  The reference model is three small tables (store,
 // overlay write set with tombstones, transaction-cache write set with
 // tombstones).  Its reachable states are enumerated breadth-first up to depth D
-// from every pre-population of the store; for every state and every event the
-// shortest history of the state is replayed on FRESH real objects, all reads
-// are performed (state s), the event is applied, and all reads are performed
-// again (state s').  "All reads" = every CacheDB.Get, OverlayDB.Get, store Get,
-// every prefix iteration at all three levels and the overlay's write set,
-// each compared with the merge of the three reference maps.
+// from every pre-population of the store; for every state s and every event e
+// the shortest history of s is replayed on FRESH real CacheDB/OverlayDB objects
+// (over a recycled LevelDB store of the right content), reads are performed
+// (all of them for one event per state, rotating; the point reads through the
+// cache for the others), e is applied, and ALL reads are performed in s'.
+// "All reads" = every CacheDB.Get and OverlayDB.Get, every prefix iteration
+// through the cache and through the overlay, a full iteration of the store,
+// and the overlay's write set, each compared with the merge of the three
+// reference maps.
 //
 // The state key contains, besides the three maps, ghost bits that only
 // distinguish histories (never used by the oracle): whether a memdb has been
@@ -49,8 +52,7 @@ const (
 const c04ST = byte(scommon.ST_STORAGE)
 
 // constant foreign entries in the persistent store: neighbours of the
-// ST_STORAGE prefix (must never leak into CacheDB iteration) and the bare
-// prefix itself (CacheDB key "").
+// ST_STORAGE prefix, which must never leak into CacheDB iteration.
 var c04foreign = [][2]string{
 	{string([]byte{c04ST - 1, 'a'}), "f-below"},
 	{string([]byte{c04ST - 1, 0xff}), "f-below-ff"},
@@ -325,7 +327,7 @@ type c04obs struct {
 func c04q(s string) string { return strconv.QuoteToASCII(s) }
 
 // c04drain runs First/Next to exhaustion.
-func c04drain(it scommon.StoreIterator, strip bool) (keys, vals []string, problem string) {
+func c04drain(it scommon.StoreIterator) (keys, vals []string, problem string) {
 	p := vh.Catch(func() {
 		n := 0
 		for ok := it.First(); ok; ok = it.Next() {
@@ -498,7 +500,7 @@ func (o *c04obs) observe(sys *c04sys, st c04state, count bool, light ...bool) (s
 		if pn := vh.Catch(func() { it = sys.cache.NewIterator([]byte(p)) }); pn != "" {
 			return "cache.Iter:panic", fmt.Sprintf("cache.NewIterator(%s) panicked: %s", c04q(p), pn)
 		}
-		gk, gv, prob := c04drain(it, true)
+		gk, gv, prob := c04drain(it)
 		if vk, d := c04cmpIter("cache", c04q(p), gk, gv, prob, top, c04raw(p), 1, tombs); vk != "" {
 			return vk, d
 		}
@@ -512,7 +514,7 @@ func (o *c04obs) observe(sys *c04sys, st c04state, count bool, light ...bool) (s
 		if pn := vh.Catch(func() { it = sys.over.NewIterator([]byte(rp)) }); pn != "" {
 			return "overlay.Iter:panic", fmt.Sprintf("overlay.NewIterator(%s) panicked: %s", c04q(rp), pn)
 		}
-		gk, gv, prob := c04drain(it, false)
+		gk, gv, prob := c04drain(it)
 		if vk, d := c04cmpIter("overlay", c04q(rp), gk, gv, prob, mid, rp, 0, tombs[1:]); vk != "" {
 			return vk, d
 		}
@@ -520,7 +522,7 @@ func (o *c04obs) observe(sys *c04sys, st c04state, count bool, light ...bool) (s
 			o.classifyJoin("overlayiter", rp, over, store)
 		}
 	}
-	gk, gv, prob := c04drain(sys.store.NewIterator(nil), false)
+	gk, gv, prob := c04drain(sys.store.NewIterator(nil))
 	if vk, d := c04cmpIter("store", `""`, gk, gv, prob, store, "", 0, nil); vk != "" {
 		return vk, d
 	}
@@ -704,12 +706,23 @@ func c04transition(r *vh.Run, o *c04obs, pool *c04pool, evs []c04event, n c04nod
 func TestVerif_C04(t *testing.T) {
 	r := vh.Start(t, "C04", "layers")
 	defer r.Finish()
-	nk := r.Pick(4, 5)
-	depth := r.Pick(4, 5)
+	type pass struct{ nk, depth, from int }
+	// quick: 4 keys, depth 4.  thorough: 5 keys to depth 5, then 4 keys one level
+	// deeper (the 4-key states of depth<=4 and their events are a subset of pass 1,
+	// so pass 2 expands the depth-5 states only).
+	passes := []pass{{4, 4, 0}}
+	if r.Thorough() {
+		passes = []pass{{5, 5, 0}, {4, 6, 5}}
+	}
+	nk, depth := passes[0].nk, passes[0].depth
 	evs := c04events(nk)
 	o := &c04obs{r: r, nk: nk}
 	r.Rule("reachable states of the three-layer reference model (store / overlay write set / cache write set, with tombstones, plus ghost bits for reused memdb buffers and tombstone-over-value) enumerated breadth-first from every pre-population of the store; for every state s and every event e the shortest history of s is replayed on fresh real CacheDB/OverlayDB objects over a LevelDB(mem) store, then: reads, e, all reads. states = reference states whose outgoing events were all executed (plus the final-depth states reached), transitions = (state,event) pairs executed on the real code, traces = replays. classes = which layer answers a Get and which join-iterator situation an iteration is in")
-	r.Bound(fmt.Sprintf("keys=%q values=%q events=%d (put x2/del per key, cache.Commit, cache.Reset, overlay->store commit) depth<=%d from all %d store pre-populations; cache prefixes %q", c04keys[:nk], c04vals, len(evs), depth, 1<<uint(nk), c04cachePrefixes))
+	bound := fmt.Sprintf("keys=%q values=%q events=%d (put x2/del per key, cache.Commit, cache.Reset, overlay->store commit) depth<=%d from all %d store pre-populations; cache prefixes %q", c04keys[:nk], c04vals, len(evs), depth, 1<<uint(nk), c04cachePrefixes)
+	if len(passes) > 1 {
+		bound += fmt.Sprintf("; second pass: keys=%q depth<=%d from all %d pre-populations", c04keys[:passes[1].nk], passes[1].depth, 1<<uint(passes[1].nk))
+	}
+	r.Bound(bound)
 	r.Assume("goleveldb (memory storage) is trusted as the persistent store; store objects are recycled between replays after being brought to the required content, and every observation re-reads the whole store")
 	r.Assume("overlay->store commit is NewBatch+CommitTo+BatchCommit followed by OverlayDB.Reset (a block's overlay is discarded after its commit)")
 	r.Assume("before the event, one event per state (rotating) is preceded by the full set of reads, the others by the point reads through the cache only; after the event all reads are made")
@@ -752,40 +765,50 @@ func TestVerif_C04(t *testing.T) {
 		return
 	}
 
-	g, perDepth := c04explore(nk, depth)
-	nodes := g.nodes
-	r.Set("model_states_per_depth", perDepth)
-	r.Set("model_states_total", len(nodes))
-	expandable := 0
-	for _, pd := range perDepth[:len(perDepth)-1] {
-		expandable += pd
-	}
 	done := true
-	for i := 0; i < expandable; i++ {
-		if !r.Mine(i) {
-			continue
+	offset := 0
+	for pi, ps := range passes {
+		nk, depth := ps.nk, ps.depth
+		evs := c04events(nk)
+		o.nk = nk
+		g, perDepth := c04explore(nk, depth)
+		nodes := g.nodes
+		r.Set(fmt.Sprintf("pass%d_model_states_per_depth", pi+1), perDepth)
+		expandable := len(nodes) - perDepth[len(perDepth)-1]
+		first := 0 // states shallower than ps.from were expanded (with a superset of these events) by an earlier pass
+		for d := 0; d < ps.from; d++ {
+			first += perDepth[d]
 		}
-		if r.Expired() {
-			done = false
-			r.Set("first_unexpanded_state_index", i)
+		for i := first; i < expandable; i++ {
+			if !r.Mine(offset + i) {
+				continue
+			}
+			if r.Expired() {
+				done = false
+				r.Set("stopped_in", fmt.Sprintf("pass %d at state index %d of %d", pi+1, i, expandable))
+				break
+			}
+			n := nodes[i]
+			nhist := g.hist(i)
+			for ei := range evs {
+				c04transition(r, o, pool, evs, n, nhist, ei, ei == i%len(evs), ei == 0)
+			}
+			if ps.from == 0 {
+				r.State(1) // in a follow-up pass these states were already counted as final-depth states of the earlier pass
+			}
+			if r.R.States <= 3 && len(nhist) >= 2 {
+				r.Sample(map[string]interface{}{"history": c04histNames(n.mask, nhist, evs), "state": fmt.Sprintf("%+v", n.st)})
+			}
+		}
+		if !done {
 			break
 		}
-		n := nodes[i]
-		nhist := g.hist(i)
-		for ei := range evs {
-			c04transition(r, o, pool, evs, n, nhist, ei, ei == i%len(evs), ei == 0)
-		}
-		r.State(1)
-		if r.R.States <= 3 && len(nhist) >= 2 {
-			r.Sample(map[string]interface{}{"history": c04histNames(n.mask, nhist, evs), "state": fmt.Sprintf("%+v", n.st)})
-		}
-	}
-	if done {
 		for i := expandable; i < len(nodes); i++ { // final-depth states: reached and observed, not expanded
-			if r.Mine(i) {
+			if r.Mine(offset + i) {
 				r.State(1)
 			}
 		}
+		offset += len(nodes)
 	}
 	r.Set("stores_opened", pool.made)
 	r.Eval(r.R.Traces)
